@@ -31,7 +31,7 @@ REVERSED_FIXES = {
 # seeded changes that also break a neighbouring property whose check sees them far more reliably
 EXTRA_CHECKS = {"C17-m1": ["C09"], "C17-w3m2": ["C04"]}
 # per-file rounds: checks beyond the ones the author listed (the change is in a helper of another property's detector)
-EXTRA_BY_NAME = {"T08-w8m3": ["C04"]}
+EXTRA_BY_NAME = {"T08-w8m3": ["C04"], "V03-w10m1": ["C16"]}   # (V03-w10m1: HDDDM validating its unused y - the refusal itself is what C16 sees)
 # changes that need more simulated time than the quick tier spends (stated in DESIGN.md 9.6): checked with the thorough tier
 THOROUGH_ONLY = {"P06-w5m1"}
 # (file, old, new, replace-all?, checks)
